@@ -23,8 +23,49 @@ def children_are(x, *names):
     return all((isinstance(it, NS) and it.system == n[5:]) if n.startswith('pssh:') else it == n for it, n in zip(x, names))
 
 
+DCX = 'dashlive/server/requesthandler/drm_context.py'
+IMPL = {'playready': 'PlayReady', 'marlin': 'Marlin', 'clearkey': 'ClearKey'}
+
+
+def build_drm_context(qual, variant):
+    from contracts.clearkey_native import extract_class
+    from dashlive.drm.system import DrmSystem
+    sel = [n for n in variant.split('+') if n and n != 'none']
+
+    def impl(cls_name):
+        def gmc(self, stream, keys, options, https_request=None, la_url=None, locations=None):
+            return NS(by=cls_name, stream=stream, keys=keys, options=options, la_url=la_url, locations=locations, https_request=https_request)
+        return type(cls_name, (), {'generate_manifest_context': gmc})
+
+    class Args:
+        def get(self, k, default=None):
+            return 'la_url:' + k
+    glb = {'flask': NS(request=NS(args=Args())), 'DrmSystem': DrmSystem, 'is_https_request': lambda: False, 'Stream': type('Stream', (), {}),
+           'OptionsContainer': object, 'DrmManifestContext': object, 'DrmLocationTuple': tuple}
+    glb.update({c: impl(c) for c in IMPL.values()})
+    it_cls = extract_class(DCX, 'DrmContextIterator', glb)
+    if qual == 'DrmContextIterator.__next__':
+        n = int(variant[0])
+        it = it_cls.__new__(it_cls)
+        it.contexts = [f'ctx{k}' for k in range(n)]
+        return {'env': {'self': it, 'is_named': lambda x, nm: x == nm, 'names_are': lambda xs, names: list(xs) == list(names)},
+                'call': lambda: next(it) if False else it_cls.__next__(it)}
+    cls = extract_class(DCX, 'DrmContext', glb)
+    options = NS(drmSelection=[(n, f'locations:{n}') for n in sel], **{n: f'options:{n}' for n in IMPL})
+    stream, keys = glb['Stream'](), object()
+    env = {'options': options, 'stream': stream, 'keys': keys,
+           'is_impl': lambda x, c: type(x).__name__ == c, 'is_locations': lambda x, n: x == f'locations:{n}',
+           'built_by': lambda ctx, c, n: ctx.by == c and ctx.locations == f'locations:{n}' and ctx.options == f'options:{n}' and
+           ctx.la_url == f'la_url:{n}_la_url'}
+    if qual.endswith('generate_drm_location_tuples'):
+        return {'env': env, 'call': lambda: cls.generate_drm_location_tuples(options)}
+    return {'env': env, 'call': lambda: iter(cls(stream, keys, options))}
+
+
 def build(key, variant, i):
     qual = key.split(':')[1]
+    if qual.startswith('DrmContext.') or qual.startswith('DrmContextIterator.'):
+        return build_drm_context(qual, variant)
     b = {k: bool(i[k]) for k in BOOLS}
     env = dict(b, children_are=children_are, is_hook=callable, same=lambda a, c: a == c,
                pssh_all_for_default_kid=lambda xs: all(not isinstance(it, NS) or it.for_kid == 'default_kid' for it in xs))
